@@ -1,3 +1,4 @@
 //@ include prelude/common.rs
+//@ include contracts/trim.rs as callee
 //@ include contracts/elements.rs
 //@ include prelude/tail.rs
